@@ -359,7 +359,7 @@ def gen_case(rng, forced=None):
             else:
                 ops.append(["call", rng.randrange(nbuf)])
     resample = rng.choice([-INF, -INF, -1e99, 1e99, -1.0e10, rfloat(rng), NAN if rng.random() < 0.3 else -INF])
-    return {"ps": ps, "flags": fl, "resample": hx(resample), "container": container, "model": md,
+    return {"ps": ps, "flags": fl, "resample": hx(resample), "container": container, "defaults": rng.random() < 0.5, "model": md,
             "script": gen_script(rng, md), "buffers": [[hx(x) for x in b] for b in buffers], "ops": ops}
 
 
